@@ -569,10 +569,10 @@ impl Check for C16 {
         true
     }
     fn rule(&self) -> String {
-        "case = an uncompressed document save of a generated history; ~60 mutants, each changing bytes inside ONE named column (op columns obj/key/id/insert/action/val/pred/succ/expand/mark_name, change columns actor/seq/max_op/time/message/deps/extra) with column lengths and the checksum fixed up and the stored heads recomputed so that head verification passes; every mutant that load() ACCEPTS (strict mode) must behave like a valid document: all OBS reads succeed without panicking and agree with each other, 12 random edits + commit work, merging a pristine replica works, save() loads back to an equal document, and the H3 invariant walk passes. Non-trivial = the mutant was accepted; distinct by (mutated column, snapshot).".into()
+        "case = an uncompressed document save of a generated history; ~60 mutants, each changing bytes inside ONE named column (op columns obj/key/id/insert/action/val/pred/succ/expand/mark_name, change columns actor/seq/max_op/time/message/deps/extra) with column lengths and the checksum fixed up and the stored heads recomputed so that head verification passes; every mutant that load() ACCEPTS (strict mode) must behave like a valid document: all OBS reads succeed without panicking and agree with each other, 12 random edits + commit work, merging a pristine replica works, save() loads back to an equal document, the H3 invariant walk passes, and its change graph is sane (get_changes works, get_heads() = the changes nothing depends on, per-actor sequence numbers 1..n without gaps); plus one mutant per case whose stored head list lacks a head. Non-trivial = the mutant was accepted; distinct by (mutated column, snapshot).".into()
     }
     fn required_counters(&self) -> Vec<&'static str> {
-        vec!["mutants", "accepted_mutants", "accepted_differing_from_original", "edited_after_accept", "merged_after_accept"]
+        vec!["mutants", "accepted_mutants", "accepted_differing_from_original", "edited_after_accept", "merged_after_accept", "accepted_graphs_checked", "head_list_mutants"]
     }
     fn min_nontrivial(&self, tier: Tier) -> u64 {
         tier.pick(20, 200)
@@ -589,6 +589,24 @@ impl Check for C16 {
             use automerge::transaction::Transactable;
             let _ = pristine.put(automerge::ROOT, "pristine", 1);
             pristine.commit();
+        }
+        // the stored head list with one head removed (only histories with >= 2 heads): must be
+        // rejected, or — if accepted — still report heads consistent with its changes
+        if let Some(b) = drop_head(&plain) {
+            cx.count("head_list_mutants");
+            match catch(|| load_enc(&b, enc)) {
+                Ok(Ok(mut d)) => {
+                    cx.count("accepted_mutants");
+                    if !accepted_graph_sane(cx, &mut d, "heads", "one stored head removed", &b) {
+                        return;
+                    }
+                }
+                Ok(Err(_)) => cx.count("head_list_mutants_rejected"),
+                Err(p) => {
+                    cx.violation(&format!("{}|load", panic_sig_file(&p)), format!("load panicked on a document whose stored head list lacks one head: {p}"), json!({}));
+                    return;
+                }
+            }
         }
         for _ in 0..cx.tier.pick(60, 100) {
             cx.count("mutants");
@@ -626,6 +644,9 @@ impl Check for C16 {
                 cx.count("accepted_differing_from_original");
             }
             cx.nontrivial(fnv(col.as_bytes()) ^ amv::obs::fingerprint(&o.snap));
+            if !accepted_graph_sane(cx, &mut d, &col, &how, &candidate) {
+                return;
+            }
             if let Err(e) = d.verif_check_invariants() {
                 cx.violation(&format!("accepted-document-breaks-invariant|{col}|{}", e.split(':').next().unwrap_or("")), format!("accepted mutated document ({how}) breaks an internal invariant: {e}"), detail("h3"));
                 return;
@@ -691,6 +712,53 @@ impl Check for C16 {
         }
         cx.sample(|| json!({"encoding": enc_name(enc), "document_bytes": plain.len()}));
     }
+}
+
+/// An accepted document must have a sane change graph: get_changes works, the heads are exactly the
+/// changes nothing depends on, every actor's sequence numbers are 1..n without gaps or repeats.
+fn accepted_graph_sane(cx: &mut Ctx, d: &mut AutoCommit, col: &str, how: &str, input: &[u8]) -> bool {
+    let detail = || json!({"mutation": how, "input_hex": hex::encode(&input[..input.len().min(1200)]), "input_len": input.len()});
+    let heads = heads_sorted(d);
+    let r = catch(|| {
+        let all = d.get_changes(&[]);
+        let none = d.get_changes(&heads);
+        (all, none.len())
+    });
+    let (all, after_heads) = match r {
+        Ok(x) => x,
+        Err(p) => {
+            cx.violation(&format!("{}|get_changes", panic_sig_file(&p)), format!("get_changes on an accepted mutated document ({how}) panicked: {p}"), detail());
+            return false;
+        }
+    };
+    cx.count("accepted_graphs_checked");
+    let mut derived: std::collections::BTreeSet<ChangeHash> = all.iter().map(|c| c.hash()).collect();
+    for c in &all {
+        for dep in c.deps() {
+            derived.remove(dep);
+        }
+    }
+    let derived: Vec<ChangeHash> = derived.into_iter().collect();
+    if derived != heads {
+        cx.violation(&format!("accepted-document-heads-inconsistent|{col}"), format!("accepted mutated document ({how}): get_heads() reports {} head(s) but its own changes imply {}", heads.len(), derived.len()), detail());
+        return false;
+    }
+    if after_heads != 0 {
+        cx.violation(&format!("accepted-document-heads-inconsistent|{col}"), format!("accepted mutated document ({how}): get_changes(get_heads()) returns {after_heads} changes"), detail());
+        return false;
+    }
+    let mut seqs: std::collections::BTreeMap<Vec<u8>, Vec<u64>> = Default::default();
+    for c in &all {
+        seqs.entry(c.actor_id().to_bytes().to_vec()).or_default().push(c.seq());
+    }
+    for (a, mut v) in seqs {
+        v.sort();
+        if v.iter().enumerate().any(|(i, s)| *s != i as u64 + 1) {
+            cx.violation(&format!("accepted-document-seq-gap|{col}"), format!("accepted mutated document ({how}): actor {} has sequence numbers {v:?}", hex::encode(&a)), detail());
+            return false;
+        }
+    }
+    true
 }
 
 // ---------------------------------------------------------------------------
